@@ -39,9 +39,11 @@ Definition pfx_id (p : BGPCodec.prefix) : N :=
 
 Definition id_pfx (i : N) : BGPCodec.prefix := BGPCodec.mkPfx (BGPCodec.IP4 (i / 64)) (i mod 64)%N.
 
-(* the prefix of an update sender entry (Model.Pipeline.upfx of a prefix id) as the codec's prefix *)
+(* the prefix of an update sender entry (Model.Pipeline.upfx of a prefix id) as the codec's prefix, and back *)
 Definition xpfx (x : UpdateSender.pfx) : BGPCodec.prefix :=
   BGPCodec.mkPfx (BGPCodec.IP4 (UpdateSender.x_addr x)) (UpdateSender.x_len x).
+Definition cpfx (p : BGPCodec.prefix) : UpdateSender.pfx :=
+  UpdateSender.mkpfx (match BGPCodec.p_ip p with BGPCodec.IP4 v => v | BGPCodec.IP6 _ _ => 0%N end) (BGPCodec.p_len p).
 
 (* ------------------------------------------------------------------ received UPDATE -> what processUpdate works on *)
 
@@ -237,18 +239,21 @@ Section Speaker.
 
   (* ---------------------------------------------------------------- what the peer makes of these bytes *)
 
-  (* the peer's Adj-RIB-In as the decoded UPDATEs define it: (prefix, path id) -> the attribute values received *)
-  Definition pkey_eqb (p : BGPCodec.prefix) (i : N) (n : BGPCodec.nlri) : bool :=
-    N.eqb (pfx_id (BGPCodec.n_pfx n)) (pfx_id p) && N.eqb (BGPCodec.n_id n) i.
+  (* the peer's Adj-RIB-In as the decoded UPDATEs define it: (prefix, path id) -> the attribute (type, value)s received
+     with the newest UPDATE that announced it and was not withdrawn since; the prefix in the update sender's notation *)
+  Definition nkey_eqb (x : UpdateSender.pfx) (i : N) (n : BGPCodec.nlri) : bool :=
+    UpdateSender.pfx_eqb x (cpfx (BGPCodec.n_pfx n)) && N.eqb (BGPCodec.n_id n) i.
 
-  Fixpoint dview (us : list BGPCodec.update_msg) (p : BGPCodec.prefix) (i : N) : option (list (N * BGPCodec.attrval)) :=
+  Definition attrs_tv (u : BGPCodec.update_msg) : list (N * BGPCodec.attrval) :=
+    map (fun a => (BGPCodec.a_type a, BGPCodec.a_val a)) (BGPCodec.u_attrs u).
+
+  Fixpoint dview (us : list BGPCodec.update_msg) (x : UpdateSender.pfx) (i : N) : option (list (N * BGPCodec.attrval)) :=
     match us with
     | [] => None
     | u :: r =>                                         (* newest first *)
-      if existsb (pkey_eqb p i) (BGPCodec.u_nlri u)
-      then Some (map (fun a => (BGPCodec.a_type a, BGPCodec.a_val a)) (BGPCodec.u_attrs u))
-      else if existsb (pkey_eqb p i) (BGPCodec.u_withdrawn u) then None
-      else dview r p i
+      if existsb (nkey_eqb x i) (BGPCodec.u_nlri u) then Some (attrs_tv u)
+      else if existsb (nkey_eqb x i) (BGPCodec.u_withdrawn u) then None
+      else dview r x i
     end.
 
   (* decode what was written with the options of the session that negotiated the encode options *)
